@@ -1027,7 +1027,7 @@ func ruleTableKeysAgree(w *World, r *Report, rule string) {
 		r.Undecided(rule, "instance-tables#accesses", token.NoPos, "only %d keyed accesses of the instance tables were found (expected the get/set pair of each table)", len(sites))
 		return
 	}
-	sort.Slice(sites, func(i, j int) bool { return sites[i].pos < sites[j].pos })
+	sort.Slice(sites, func(i, j int) bool { return posLess(sites[i].pos, sites[j].pos) })
 	// the reference: what the majority does; on a tie, no normaliser
 	count := map[string]int{}
 	for _, s := range sites {
@@ -1215,7 +1215,7 @@ func ruleNoResolutionAfterTracking(w *World, r *Report, rule string) {
 	for f := range chain {
 		fns = append(fns, f)
 	}
-	sort.Slice(fns, func(i, j int) bool { return fns[i].Decl.Pos() < fns[j].Decl.Pos() })
+	sort.Slice(fns, func(i, j int) bool { return posLess(fns[i].Decl.Pos(), fns[j].Decl.Pos()) })
 	sites, bad := 0, 0
 	for _, fi := range fns {
 		info := fi.Pkg.TypesInfo
@@ -2640,7 +2640,7 @@ func ruleBuildReadsRegistry(w *World, r *Report, rule string) {
 	for f := range build {
 		fns = append(fns, f)
 	}
-	sort.Slice(fns, func(i, j int) bool { return fns[i].Decl.Pos() < fns[j].Decl.Pos() })
+	sort.Slice(fns, func(i, j int) bool { return posLess(fns[i].Decl.Pos(), fns[j].Decl.Pos()) })
 	bad := 0
 	for _, fi := range fns {
 		info := fi.Pkg.TypesInfo
